@@ -477,7 +477,7 @@ class StyleProperties:
     def from_model(cls, xml_element, model_value):
       xml_element.set(
         f"{{{cls.ns}}}{cls.local_name}", 
-        f"{model_value.x.value:g}{model_value.x.units.value} {model_value.y.value:g}{model_value.y.units.value}"
+        f"{StyleProperties.to_ttml_length(model_value.x)} {StyleProperties.to_ttml_length(model_value.y)}"
       )
 
 
@@ -578,9 +578,9 @@ class StyleProperties:
       xml_element.set(
         f"{{{cls.ns}}}{cls.local_name}", 
         f"{model_value.h_edge.value} " \
-        f"{model_value.h_offset.value:g}{model_value.h_offset.units.value} " \
+        f"{StyleProperties.to_ttml_length(model_value.h_offset)} " \
         f"{model_value.v_edge.value} " \
-        f"{model_value.v_offset.value:g}{model_value.v_offset.units.value}"
+        f"{StyleProperties.to_ttml_length(model_value.v_offset)}"
       )
 
 
@@ -1162,4 +1162,4 @@ class StyleProperties:
 
   @staticmethod
   def to_ttml_length(model_value: styles.LengthType):
-    return f"{model_value.value:g}{model_value.units.value}"
+    return f"{utils.to_ttml_number(model_value.value)}{model_value.units.value}"
